@@ -236,6 +236,7 @@ func (cx *Ctx) checkErrReply(r *Report, rule, key string, fn *ssa.Function) int 
 func checkC10(cx *Ctx, r *Report) {
 	w, fx := cx.W, cx.Fx
 	cx.checkAlgorithmValidatedBeforeSigner(r)
+	cx.checkStorageIsTheApplications(r)
 	cx.checkRecoverReports(r, cx.handlerScope())
 	r.Clauses = []string{
 		"error discipline at every storage call site and at every call of a module function / closure that can fail, in all code reachable from the routed handlers: the error is tested before anything else happens; the failing branch returns a non-nil error, or (in handlers and callbacks) performs exactly one error reply (HTTP >= 400, or a failed SAML response) and reaches no Success constructor, signing, persistence, user-info lookup or redirect",
